@@ -10,6 +10,11 @@ Tie:   X — the real limitparallelrequests.New(...) runs under testing/synctest
        observed history is (a) judged by the specification (Spec/Limiter.lean: limits, FIFO, cancel-neutral, no leak, idle)
        and (b) checked for trace inclusion in the model (the driver keeps the set of model states compatible with the
        observations; all interleavings of internal steps inside one window are explored).
+       T — Generated/LimiterWiring.lean (go/ast over udp/client, tcp/client, net/client): which function every request path of a
+       connection is handed out as; `every_request_path_is_limited` is decided over it.
+       X (connection level) — the real udp and tcp client.Conn over the in-memory transports: get / post / observe /
+       Observation.Cancel / ping in every order for small counts, requests counted on the wire by a scripted peer; same
+       judge, same trace inclusion.
 Hook:  net/client/limitParallelRequests/export_verif.go (read-only: VerifHash, VerifEntries, VerifEndpoint).
 """
 import glob
@@ -65,7 +70,25 @@ def gen_lines(ctx):
     return L
 
 
-def run_harness(ctx, exe, lines, tag="x", timeout=3000):
+def gen_conn_lines(ctx):
+    """Connection-level correspondence (harness/c16/conn_test.go)."""
+    thorough = ctx.tier == "thorough"
+    L = []
+    for tr in ("udp", "tcp"):
+        for (l, e) in ((1, 1), (2, 1)):
+            L.append("connexplore %s %d %d %d 2" % (tr, l, e, 4 if thorough else 3))
+        if thorough:
+            L.append("connexplore %s 2 2 4 1" % tr)
+            L.append("connexplore %s 0 1 3 2" % tr)
+    if not thorough:
+        L.append("connexplore tcp 1 1 4 1")
+        L.append("connexplore udp 2 1 4 1")
+    for i, tr in enumerate(("udp", "tcp")):
+        L.append("connrandom %s %d %d 7 2" % (tr, ctx.seed + 77 + i, 3000 if thorough else 300))
+    return L
+
+
+def run_harness(ctx, exe, lines, tag="x", timeout=3000, test="TestC16"):
     inp = os.path.join(ctx.work, tag + ".in")
     outp = os.path.join(ctx.work, tag + ".out")
     open(inp, "w").write("\n".join(lines) + "\n")
@@ -73,14 +96,14 @@ def run_harness(ctx, exe, lines, tag="x", timeout=3000):
         os.remove(outp)
     e = dict(os.environ, VERIF_IN=inp, VERIF_OUT=outp, VERIF_SEED=str(ctx.seed), VERIF_TIER=ctx.tier)
     try:
-        p = subprocess.run([exe, "-test.run", "^TestC16$", "-test.timeout", "%ds" % timeout], cwd=ctx.work, env=e,
+        p = subprocess.run([exe, "-test.run", "^%s$" % test, "-test.timeout", "%ds" % timeout], cwd=ctx.work, env=e,
                            stdout=subprocess.PIPE, stderr=subprocess.STDOUT, text=True, timeout=timeout + 30)
     except subprocess.TimeoutExpired:
-        ctx.broken.append(("correspondence", "harness TestC16 timed out", ""))
+        ctx.broken.append(("correspondence", "harness %s timed out" % test, ""))
         return None
     out = open(outp).read().splitlines() if os.path.exists(outp) else []
     if p.returncode != 0:
-        ctx.broken.append(("correspondence", "harness TestC16 failed (rc=%d)" % p.returncode, p.stdout[-3000:]))
+        ctx.broken.append(("correspondence", "harness %s failed (rc=%d)" % (test, p.returncode), p.stdout[-3000:]))
         return out or None
     return out
 
@@ -130,6 +153,7 @@ def classify(h):
         if evs.startswith("idle") or evs.startswith("panic"):
             continue
         parts = [e.split() for e in evs.split("&")]
+        parts = [["arrive"] + e[1:3] if e[0] in ("get", "post", "observe", "unobserve") else e for e in parts if e[0] not in ("ping", "pong")]
         nev += len(parts)
         if len(parts) > 1:
             multi += 1
@@ -162,7 +186,10 @@ def classify(h):
 
 
 def judge_one(ctx, art, evline, tag="min"):
-    out = run_harness(ctx, art["test"], ["replay " + evline], tag=tag)
+    if evline.startswith("conn "):
+        out = run_harness(ctx, art["test"], ["connreplay " + evline], tag=tag, test="TestC16Conn")
+    else:
+        out = run_harness(ctx, art["test"], ["replay " + evline], tag=tag)
     if not out:
         return None, None
     rc, j, _ = common.pipe_lines([art["driver"], "judge"], [out[0]])
@@ -200,17 +227,29 @@ def minimise(ctx, art, h, verdict):
 
 
 def explore(ctx, art):
-    lines = []
+    lines, clines = [], []
     for p in sorted(glob.glob(os.path.join(CORPUS, "*.json"))):
         for l in json.load(open(p)).get("input", []):
-            lines.append("replay " + l)
-    ncorpus = len(lines)
+            if l.startswith("conn "):
+                clines.append("connreplay " + l)
+            else:
+                lines.append("replay " + l)
+    ncorpus = len(lines) + len(clines)
     lines += gen_lines(ctx)
+    clines += gen_conn_lines(ctx)
     out = run_harness(ctx, art["test"], lines)
     if out is None:
         return
-    hist = [l for l in out if l.startswith("cfg ")]
-    other = [l for l in out if not l.startswith("cfg ") and not l.startswith("#")]
+    # connection level: the real udp / tcp client.Conn, requests counted on the wire
+    cout = run_harness(ctx, art["test"], clines, tag="conn", test="TestC16Conn")
+    if cout is None:
+        return
+    nconn = sum(1 for l in cout if l.startswith("conn "))
+    ctx.count("connection-level histories (real udp/tcp client.Conn, requests counted on the wire)", nconn)
+    ctx.cov["connection_level_histories"] = nconn
+    out = out + cout
+    hist = [l for l in out if l.startswith("cfg ") or l.startswith("conn ")]
+    other = [l for l in out if not l.startswith("cfg ") and not l.startswith("conn ") and not l.startswith("#")]
     for l in other:
         ctx.violations.append(common.Violation("no-crash", "C16:harness:" + l[:80], "harness line: " + l, {"input": [], "observed": l}))
     for l in out:
@@ -234,8 +273,10 @@ def explore(ctx, art):
         if inversion:
             ctx.count("histories in which a later call of a path is in flight while an earlier one still waits (legal: "
                       "same window, or both past the per-path limit)")
-        cfg = " ".join(h.split(";")[0].split()[1:3])
-        ctx.count("cfg " + cfg)
+        cfg = " ".join(h.split(";")[0].split()[1:])
+        ctx.count(("conn " if h.startswith("conn ") else "cfg ") + cfg)
+        if h.startswith("conn ") and "unobserve" in h:
+            ctx.count("connection-level histories with Observation.Cancel")
         ctx.count("events", nev)
         if multi:
             ctx.count("histories with multi-event windows")
@@ -290,14 +331,14 @@ def explore(ctx, art):
 
 
 def run(ctx):
-    art = common.standard_prepare(ctx, MODULES, hx=False, test=True, generated=[])
+    art = common.standard_prepare(ctx, MODULES, hx=False, test=True, generated=["LimiterWiring.lean"])
     if art.get("test"):
         explore(ctx, art)
     return common.finish(ctx)
 
 
 def replay(ctx, rep):
-    art = common.standard_prepare(ctx, MODULES, hx=False, test=True, generated=[])
+    art = common.standard_prepare(ctx, MODULES, hx=False, test=True, generated=["LimiterWiring.lean"])
     lines = rep.get("input") or []
     if not lines:
         print("replay file names no failing input:", rep.get("no_longer_checks"))
